@@ -86,6 +86,92 @@ def execute_isolated(prop, plan, sched_spec=None, timeout=RUN_TIMEOUT, label='ru
     return isolated_call(prop.execute, (canon, sched), timeout=timeout, label=label)
 
 
+def directed_specs(result, seed, cap=5):
+    """Conflict-directed refinement of one explored run.
+
+    The base run recorded every touch of a process-shared object (rule-cache keys through the dict
+    seam; elements of module/class-level containers through the alias watch).  For an object touched
+    by at least two tasks, and a touch `a` of task A that is followed by touches of other tasks,
+    build the schedule "replay the base run up to `a`, park A right there, let those other tasks run
+    to completion inside the window, then resume A".  Rarely touched objects first."""
+    import random
+    sched = result['sched']
+    touches = sched.get('touches') or []
+    if not touches:
+        return []
+    rng = random.Random(derive_seed(seed, 'directed'))
+    groups = {}
+    for seq, tid, tp, obj, kind, lineno in touches:
+        obj = tuple(obj)
+        # an element of a shared container conflicts with every use of that container
+        gkey = obj if obj[0] in ('cache', 'static') else ('container', obj[1])
+        groups.setdefault(gkey, []).append((seq, tid, tp, kind, lineno, obj))
+    cands = []
+    for gkey, ts in groups.items():
+        if len({t[1] for t in ts}) < 2:
+            continue
+        site_freq = {}
+        for t in ts:
+            site = (t[5], t[4], t[3])
+            site_freq[site] = site_freq.get(site, 0) + 1
+        per_victim = {}
+        for i, (seq, tid, tp, kind, lineno, obj) in enumerate(ts):
+            if gkey[0] == 'cache' and kind not in ('Cm', 'Cs'):
+                continue
+            later = sorted({t[1] for t in ts[i + 1:] if t[1] != tid})
+            if later:
+                per_victim.setdefault(tid, []).append((site_freq[(obj, lineno, kind)],
+                                                       0 if obj[0] == 'elem' else 1, tp, later,
+                                                       (obj, lineno, kind)))
+        for tid in sorted(per_victim):
+            lst = sorted(per_victim[tid], key=lambda c: (c[1], c[0], c[2]))
+            pick, sites = [], set()
+            for c in lst:                      # one touch from each of the rarest sites first
+                if c[4] not in sites:
+                    sites.add(c[4])
+                    pick.append(c)
+                if len(pick) >= 4:
+                    break
+            rest = [c for c in lst if c not in pick]
+            pick += rng.sample(rest, min(2, len(rest)))
+            for rank, c in enumerate(pick):
+                obj, lineno, kind = c[4]
+                # mid-line touches of an aliased element first (no line-level pre-emption reaches
+                # them), then line-level touches of elements, cache-key windows, container users
+                if obj[0] == 'elem':
+                    klass = 0 if kind in ('HX', 'X') else 1
+                elif obj[0] == 'static':
+                    klass = 0           # right after a write to module/class-level state
+                elif obj[0] == 'cache':
+                    klass = 2
+                else:
+                    klass = 3 if kind in ('HX', 'X') else 4
+                cands.append((klass, rank, len(ts), repr(gkey), tid, c[2], c[3]))
+    cands.sort(key=lambda c: c[:6])
+    # weighted sampling without replacement: precise windows are preferred but every class of
+    # candidate keeps a chance, and different runs make different choices
+    weight = {0: 16.0, 1: 6.0, 2: 4.0, 3: 2.0, 4: 1.0}
+    pool = []
+    seen = set()
+    for c in cands:
+        if (c[4], c[5]) not in seen:
+            seen.add((c[4], c[5]))
+            pool.append(c)
+    out = []
+    while pool and len(out) < cap:
+        ws = [weight[c[0]] / (1.0 + c[1]) for c in pool]
+        r = rng.random() * sum(ws)
+        acc = 0.0
+        for i, w in enumerate(ws):
+            acc += w
+            if r <= acc:
+                break
+        c = pool.pop(i)
+        out.append({'mode': 'directed', 'segments': sched['segments'], 'victim': c[4], 'at': c[5],
+                    'drain': c[6]})
+    return out
+
+
 def run_one(prop, mode, base, run_index, refs):
     """Execute and judge one simulated run.  Returns (violations, stats, harness_errors)."""
     seed = derive_seed(base, prop.ID, mode, run_index)
@@ -110,6 +196,32 @@ def run_one(prop, mode, base, run_index, refs):
     for v in violations:
         v.update({'mode': mode, 'run_index': run_index, 'seed': seed, 'plan': plan,
                   'schedule': result.get('sched', {}).get('segments')})
+    if not violations and len(plan['tasks']) > 1 and not result['sched'].get('capped') \
+            and getattr(prop, 'DIRECTED', True):
+        # second stage: conflict-directed schedules derived from what the base run touched
+        try:
+            for spec in directed_specs(result, seed):
+                res2 = execute_isolated(prop, plan, spec, label='directed %s/%d' % (mode, run_index))
+                v2, st2 = prop.judge(plan, res2, refs)
+                stats['directed_runs'] = stats.get('directed_runs', 0) + 1
+                stats['directed_windows_reached'] = stats.get('directed_windows_reached', 0) + \
+                    (1 if res2['sched'].get('directed_fired') else 0)
+                stats['directed_compared'] = stats.get('directed_compared', 0) + st2.get('compared', 0)
+                stats['points'] = stats.get('points', 0) + st2.get('points', 0)
+                if 'conflict_sigs' in st2:
+                    stats.setdefault('conflict_sigs', set()).update(st2['conflict_sigs'])
+                if v2:
+                    for v in v2:
+                        v.update({'mode': mode, 'run_index': run_index, 'seed': seed, 'plan': plan,
+                                  'schedule': res2['sched']['segments'], 'via': 'directed'})
+                    violations = v2
+                    break
+        except ForkTimeout as e:
+            return [], stats, [{'kind': 'timeout', 'mode': mode, 'run_index': run_index,
+                                'seed': seed, 'msg': 'directed: ' + str(e)}]
+        except ForkError as e:
+            return [], stats, [{'kind': 'error', 'mode': mode, 'run_index': run_index,
+                                'seed': seed, 'msg': str(e)[:2000]}]
     return violations, stats, []
 
 
